@@ -5,3 +5,4 @@ import Xandikos.Theorems.C14
 #print axioms Xandikos.Theorems.C14.reupload_noop
 #print axioms Xandikos.Theorems.C14.members_valid_step
 #print axioms Xandikos.Theorems.C14.members_always_valid
+#print axioms Xandikos.Theorems.C14.code_maps_invalid_data
